@@ -336,7 +336,8 @@ def check(ctx: Ctx, col: Collector, tier: str) -> None:
             "tuple": "sds.TupleType", "list": "sds.ListType", "Sequence": "sds.ListType", "Collection": "sds.ListType",
             "set": "sds.SetType", "dict": "sds.DictType", "Mapping": "sds.DictType"}
     for name, want in inst.items():
-        facts = {repr(Sym("mypy_type.type.name")): Const(name)}
+        std_mod = "typing" if name[0].isupper() else "builtins"
+        facts = {repr(Sym("mypy_type.type.name")): Const(name), repr(Sym("mypy_type.type.fullname")): Const(f"{std_mod}.{name}"), repr(Sym("mypy_type.type.module_name")): Const(std_mod)}
         if want == "sds.DictType":
             # library fact: an Instance carries one argument per type variable of its class (mypy fills omitted ones with Any);
             # builtins.dict and typing.Mapping have two.  A class that is merely named like them is the `other class` case.
@@ -356,12 +357,25 @@ def check(ctx: Ctx, col: Collector, tier: str) -> None:
                     if not (isinstance(kt, App) and kt.func == REC_V and kt.args == (Sym("mypy_type.args[0]"),)
                             and isinstance(vt, App) and vt.func == REC_V and vt.args == (Sym("mypy_type.args[1]"),)):
                         probs.append(f"key/value are not the translations of args[0]/args[1]: {kt!r}, {vt!r}")
-                if want == "sds.NamedType" and not (o.value.get("name") == Const(name) and o.value.get("qname") == Sym("mypy_type.type.fullname")):
+                if want == "sds.NamedType" and not (o.value.get("name") == Const(name) and o.value.get("qname") in (Sym("mypy_type.type.fullname"), Const(f"{std_mod}.{name}"))):
                     probs.append(f"builtin built as {o.value!r}")
         if probs:
             col.bad("C05.CTOR-TABLE", key, repo.loc(VISITOR, vfi.node), "; ".join(dict.fromkeys(probs)), f"Instance of {name}: {probs[0]}")
         else:
             col.ok("C05.CTOR-TABLE", key, repo.loc(VISITOR, outs[0].node), f"{name} -> {want}")
+    # a class of the analysed package (or of another library) that is merely *named* like a builtin container is an ordinary class
+    for name in ("Sequence", "Collection", "Mapping", "list", "set", "dict", "tuple"):
+        facts = {repr(Sym("mypy_type.type.name")): Const(name), repr(Sym("mypy_type.type.fullname")): Const(f"pkg.mod.{name}"), repr(Sym("mypy_type.type.module_name")): Const("pkg.mod")}
+        outs = run_v("Instance", facts)
+        got = only_obj(outs)
+        key = f"{vkey}::Instance:{name}::class-of-the-package"
+        wrong = sorted(g for g in got if g in ("sds.ListType", "sds.SetType", "sds.DictType", "sds.TupleType"))
+        if wrong:
+            col.bad("C05.CTOR-TABLE", key, repo.loc(VISITOR, vfi.node), f"a class pkg.mod.{name} maps to {sorted(got)}",
+                    f"the builtin containers are recognised by their bare class name: a class of the package named `{name}` (`class {name}(Generic[T]): ...; def f(x: {name}[int])`) is translated as "
+                    f"{wrong[0].split('.')[-1]} instead of the class's own name")
+        else:
+            col.ok("C05.CTOR-TABLE", key, repo.loc(VISITOR, vfi.node), f"a class pkg.mod.{name} is translated like any other class: {sorted(got)}")
     # other class: with args -> NamedSequenceType, without -> NamedType
     outs = run_v("Instance", {repr(Sym("mypy_type.type.name")): Const("SomeClass")})
     key = f"{vkey}::Instance:other"
